@@ -1,7 +1,7 @@
 #!/usr/bin/env python3
 """Copy /verif/seeded/RESULTS.md (with a short description per seed) into DESIGN.md section 10."""
 import re
-desc={'C02-1':'flattenLocations filters in place (locs[:0])','C02-2':'Ranged.Shift rebuilds the range and loses the 5\' marker of a both-ends-partial range','C03-1':'Ambiguous.Expand clamp','C03-2':'Between.Expand drops the Max clamp','C04-1':'Ranged.Normalize wrap loses a partial flag','C04-2':'Rotate skips Normalize unless the location reaches the end','C05-1':'Ranged.Reverse early return','C05-2':'Ordered.Reverse two-pointer swap skips the middle part','C06-1':'flattenLocations reuses the argument array','C06-2':'Push: a point abutting the start of the next range is swallowed under force','C07-1':'slow ORIGIN reader `<=` -> `<` (index past end)','C07-2':'REFERENCE padding guard removed (negative Repeat count)','C08-1':'HeadTail.Apply on the complement strand','C08-2':'Regions.Resize left==k/right==k guards removed','C09-1':'Minimize merge drops Max','C09-2':'BySegment.Less normalisation flipped','C10-1':'Push merge loses the tail 3\' marker','C10-2':'Concat shifts later pieces by Len(head)','C11-1':'Delete appends into the argument','C11-2':'Joined.Expand returns the receiver for n == 0','C12-1':'Push: parentheses removed, abut test only under force','C12-2':'Repair: force only if the source class starts at index 0','C13-1':'body digest skips the trailing partial block','C13-2':'Validate compares the root digest with EqualFold','C14-1':'locators sorted only for the cache key','C14-2':'sort keys the cache on -F instead of the detected file type','C15-1':'Minimize merge keeps the first end','C15-2':'containsRegion compares head/tail/len instead of DeepEqual','C16-1':'fromOriginLength lastLine <= 12','C16-2':'Origin.Bytes stops before a 1-residue last line','C18-1':'case mask 0x5f','C18-2':'bytesIndexAll as a bytes.Index loop skipping overlaps','C19-1':'FeatureSlice.Insert fast path','C19-2':'Qualifier: empty-query shortcut before the unnamed branch','C02-3':'insert helper reuses the host buffer when it has spare capacity (tail clobbered)','C03-3':'LocationWithin checks only the first and last part of a join','C05-3':'Regions.Complement two-pointer swap skips the middle part','C06-3':'Order switches on len(locs) instead of the flattened length','C07-3':'featureKeylineParser: strings.Repeat with a negative count','C08-3':'locationLocator shares one list across calls (resizeLocator rewrites it)','C09-3':'InvertCircular inspects the unsorted flattened segments','C11-3':'insert helper as append(p[:pos], append(q, p[pos:]...)...)','C13-3':'Close writes a provisional header first (moves the file offset)','C14-3':'insert digests parsed guest residues instead of the raw guest file','C16-3':'Origin.Len returns 0 for buffers of <= 12 bytes','C19-3':'Selector skips empty clauses'}
+desc={'C02-1':'flattenLocations filters in place (locs[:0])','C02-2':'Ranged.Shift rebuilds the range and loses the 5\' marker of a both-ends-partial range','C03-1':'Ambiguous.Expand clamp','C03-2':'Between.Expand drops the Max clamp','C04-1':'Ranged.Normalize wrap loses a partial flag','C04-2':'Rotate skips Normalize unless the location reaches the end','C05-1':'Ranged.Reverse early return','C05-2':'Ordered.Reverse two-pointer swap skips the middle part','C06-1':'flattenLocations reuses the argument array','C06-2':'Push: a point abutting the start of the next range is swallowed under force','C07-1':'slow ORIGIN reader `<=` -> `<` (index past end)','C07-2':'REFERENCE padding guard removed (negative Repeat count)','C08-1':'HeadTail.Apply on the complement strand','C08-2':'Regions.Resize left==k/right==k guards removed','C09-1':'Minimize merge drops Max','C09-2':'BySegment.Less normalisation flipped','C10-1':'Push merge loses the tail 3\' marker','C10-2':'Concat shifts later pieces by Len(head)','C11-1':'Delete appends into the argument','C11-2':'Joined.Expand returns the receiver for n == 0','C12-1':'Push: parentheses removed, abut test only under force','C12-2':'Repair: force only if the source class starts at index 0','C13-1':'body digest skips the trailing partial block','C13-2':'Validate compares the root digest with EqualFold','C14-1':'locators sorted only for the cache key','C14-2':'sort keys the cache on -F instead of the detected file type','C15-1':'Minimize merge keeps the first end','C15-2':'containsRegion compares head/tail/len instead of DeepEqual','C16-1':'fromOriginLength lastLine <= 12','C16-2':'Origin.Bytes stops before a 1-residue last line','C18-1':'case mask 0x5f','C18-2':'bytesIndexAll as a bytes.Index loop skipping overlaps','C19-1':'FeatureSlice.Insert fast path','C19-2':'Qualifier: empty-query shortcut before the unnamed branch','C02-3':'insert helper reuses the host buffer when it has spare capacity (tail clobbered)','C03-3':'LocationWithin checks only the first and last part of a join','C05-3':'Regions.Complement two-pointer swap skips the middle part','C06-3':'Order switches on len(locs) instead of the flattened length','C07-3':'featureKeylineParser: strings.Repeat with a negative count','C08-3':'locationLocator shares one list across calls (resizeLocator rewrites it)','C09-3':'InvertCircular inspects the unsorted flattened segments','C11-3':'insert helper as append(p[:pos], append(q, p[pos:]...)...)','C13-3':'Close writes a provisional header first (moves the file offset)','C14-3':'insert digests parsed guest residues instead of the raw guest file','C16-3':'Origin.Len returns 0 for buffers of <= 12 bytes','C19-3':'Selector skips empty clauses','C02-4':'mergeGuest fast path skips relocating guest features when the host table is empty','C03-4':'Slice: negative end no longer normalised (takes the rotate path)','C04-3':'Ambiguous.Normalize takes End % length','C06-4':'parseRange resets the 3\' marker when anything follows the range','C08-4':'resizeLocator skips zero-length regions','C09-4':'invertSegments gap test start+1 < s[0]','C10-3':'Point.Expand compares against p+n','C11-4':'FeatureSlice.Insert as append-then-shift (in place with spare capacity)','C12-3':'Repair class key from Props.Items() (drops valueless qualifiers)','C13-4':'CreateLevel writes a verifiable header for the empty body','C15-3':'insert reverses the sites instead of sorting them','C16-4':'NewOrigin loop bound drops a last line of one residue','C18-3':'Match: hand-rolled escape without braces','C19-4':'FeatureSlice.Less: non-source may sort before source'}
 t=open('/verif/seeded/RESULTS.md').read()
 out=[]
 for line in t.strip().split('\n'):
